@@ -24,7 +24,7 @@ RESEAT_OK = {
 }
 
 
-def closure_loops(rep, fb):
+def closure_loops(rep, fb, rule='R02.12'):
     """no loop of step() re-seats the iterator it walks an ordered set with from the result of an insertion into that set"""
     f = fb.fn('uscxml::LargeMicroStep::step')
     n_loops = n_ins = 0
@@ -56,16 +56,16 @@ def closure_loops(rep, fb):
                     n_ins += 1
                     operand = ' '.join(fb.text(ins[0]['c'][1]).split()) if len(ins[0].get('c', [])) > 1 else ''
                     if (f.q, walked, operand) in RESEAT_OK:
-                        rep.ok('R02.12', 'LargeMicroStep|%s|re-seated at %s' % (walked, operand), 'exempt: ' + RESEAT_OK[(f.q, walked, operand)])
+                        rep.ok(rule, 'LargeMicroStep|%s|re-seated at %s' % (walked, operand), 'exempt: ' + RESEAT_OK[(f.q, walked, operand)])
                         continue
-                    rep.fail('R02.12', 'LargeMicroStep|%s|iterator re-seated from insert' % walked, locstr(n),
+                    rep.fail(rule, 'LargeMicroStep|%s|iterator re-seated from insert' % walked, locstr(n),
                              'the loop walks %s and assigns its iterator from `%s`: the walk continues at the insertion point and the members between it and the old position are skipped (e.g. a second target whose own ancestors are then never added)' % (walked, ' '.join(fb.text(rhs).split())[:60]))
-    rep.minimum('R02.12', n_loops, 3, 'iterator loops over ordered sets in LargeMicroStep::step')
+    rep.minimum(rule, n_loops, 3, 'iterator loops over ordered sets in LargeMicroStep::step')
     if not n_ins:
-        rep.ok('R02.12', 'LargeMicroStep', '%d iterator loops over ordered sets; none re-seats its iterator from an insertion into the walked set' % n_loops)
+        rep.ok(rule, 'LargeMicroStep', '%d iterator loops over ordered sets; none re-seats its iterator from an insertion into the walked set' % n_loops)
 
 
-def first_only(rep, fb):
+def first_only(rep, fb, rule='R02.11'):
     SETS = ('completion', 'target', 'ancestors')
     n_uses = 0
     f = fb.fn('uscxml::LargeMicroStep::step')
@@ -90,9 +90,9 @@ def first_only(rep, fb):
             if p is not None and ((p['k'] == 'UnaryOperator' and p.get('op') == '*') or (p['k'] == 'CXXOperatorCallExpr' and p.get('op') in ('*', '->'))):
                 # an iterator that is advanced in a loop is declared first; a direct dereference of begin() is a first-only use
                 bad = 'begin() is dereferenced directly'
-        rep.check(bad is None, 'R02.11', 'LargeMicroStep|%s.%s#%d' % (obj['ref']['name'], m, sum(1 for x in f.walk() if x['k'] == 'CXXMemberCallExpr' and x['loc'][1] < n['loc'][1] and x.get('callee', {}).get('q', '').endswith('::' + m))),
+        rep.check(bad is None, rule, 'LargeMicroStep|%s.%s#%d' % (obj['ref']['name'], m, sum(1 for x in f.walk() if x['k'] == 'CXXMemberCallExpr' and x['loc'][1] < n['loc'][1] and x.get('callee', {}).get('q', '').endswith('::' + m))),
                   locstr(n), 'use of the set `%s` through %s(): %s' % (fb.text(obj)[:40], m, 'whole-range use' if bad is None else bad + ': only the first of possibly several states is considered'))
-    rep.minimum('R02.11', n_uses, 6, 'begin()/front() uses of completion / target / ancestors in LargeMicroStep::step')
+    rep.minimum(rule, n_uses, 6, 'begin()/front() uses of completion / target / ancestors in LargeMicroStep::step')
 
 
 _CG = {}
@@ -166,6 +166,8 @@ def run(rep, tier):
     rep.rule('R02.10', 'exit sets follow the transition domain: the engines\' getTransitionDomain has the specified quantifier shape (same rule as C01 R01.11)')
     rep.rule('R02.11', 'set-valued relations are used as sets: inside step() the completion / target / ancestor sets of a state or transition are only used whole (range-for, begin()..end() pair, whole-container copy), never through their first element alone')
     rep.rule('R02.12', 'closure loops visit every member: no loop of step() that walks an ordered set with an iterator assigns that iterator from the result of an insertion into the same set (the walk would continue at the insertion point and skip the members in between); closures are computed while walking a copy or by forward walks with plain increments')
+    rep.rule('R02.13', 'deep completion sees direct children: the fast engine\'s children relation is set for the direct parent only (same rule as C03 R03.6; with all descendants in it the test "completion has no child of this state" never fires and ancestors of deep initial targets are not entered)')
+    rep.rule('R02.14', 'a compound state keeps an active child: a history pseudo-state takes its default transition exactly when nothing is remembered (same rule as C01 R01.16)')
     rep.assume('legality for every chart and history needs the values of the entry set: not decided')
     fb = facts.FactBase(facts.library_tus())
     ex = exc.ExcFlow(fb, infeasible=set(INFEASIBLE))
@@ -186,6 +188,15 @@ def run(rep, tier):
         if not brk:
             rep.ok('R02.11', eng + '|deep completion', 'every completion member contributes its ancestors (%d loop(s))' % n)
     rep.minimum('R02.11', nl, 2, 'loops adding the ancestors of completion members in the engines')
+    # R02.13 / R02.14: defects of relations and conditions that show as an illegal configuration (shared rules)
+    from .C03 import fast_children
+    fast_children(rep, fb, 'R02.13')
+    for q in ENGINES:
+        hn, hd = _skel.history_default_condition(fb.fn(q))
+        if hn is None:
+            raise AnalysisBroken('%s: the test that selects a history state\'s default transition was not found' % q)
+        rep.check(hd == ['nothing remembered'], 'R02.14', q.split('::')[1] + '|history default', locstr(hn), 'a history state takes its default transition under: %s%s' % (
+            ' and '.join(sorted(hd)), '' if hd == ['nothing remembered'] else ' -- a transition into the history of an active parent then enters nothing and leaves a compound state without an active child'))
     for eq in ENGINES:
         sk = _skel.Skeleton(fb, ex, eq)
         f, g, eng, cls = sk.f, sk.g, sk.eng, sk.cls
